@@ -25,7 +25,7 @@ pub fn gen(scen: &str, k: u64, seed: u64, tier: &str) -> Case {
     match scen {
         "io.trunc" => {
             // small streams, every truncation point
-            let len = biased_len(&mut r_in, if big { 6000 } else { 700 }, &[16, 256]);
+            let len = biased_len(&mut r_in, if big { 4000 } else { 700 }, &[16, 256]);
             optgen::random_format(&mut r_opt, &mut case, READER_FORMATS, len);
             case.input = random_input(&mut r_in, len, case.opt.dict);
             case.rbufs = random_rbufs(&mut r_ops);
@@ -42,7 +42,7 @@ pub fn gen(scen: &str, k: u64, seed: u64, tier: &str) -> Case {
             case.set("only", -1);
             case.set("errkind", r_f.below(6) as i64);
             case.set("transient", r_f.pct(30) as i64);
-            case.set("max_points", if big { 100000 } else { 96 });
+            case.set("max_points", if big { 1500 } else { 96 });
             case.set("pick_seed", (r_f.next_u64() >> 1) as i64);
         }
         "io.read_benign" => {
@@ -62,7 +62,7 @@ pub fn gen(scen: &str, k: u64, seed: u64, tier: &str) -> Case {
             case.wops = random_wops(&mut r_ops, len, true, 40);
             case.set("only", -1);
             case.set("errkind", r_f.below(6) as i64);
-            case.set("max_points", if big { 4000 } else { 64 });
+            case.set("max_points", if big { 800 } else { 64 });
             case.set("pick_seed", (r_f.next_u64() >> 1) as i64);
         }
         _ => {
